@@ -53,7 +53,7 @@ Section P.
   Definition routed (root : node) (path iface : bytes) (c : call) (r : presult) : effects * node :=
     match get_child root (segs_of path) with
     | None => (reply_only (RErr EUnknownObject None), root)
-    | Some _ => if C10.Model.validate_interface iface then of_presult c r else (reply_only (RErr EZBus None), root)
+    | Some _ => if C10.Model.validate_interface iface then of_presult c r else (reply_only (RErr EInvalidArgs None), root)
     end.
 
   Lemma route_get root path nr iface pname :
